@@ -726,10 +726,17 @@ func concurrentFactory(res *vkit.Result, rounds int) {
 	profiles := []Profile{
 		{Kind: "const", Ops: 4, Duration: 5e8}, {Kind: "line", From: 2, To: 10, Duration: 15e8},
 		{Kind: "once", Times: 7}, {Kind: "step", From: 1, To: 3, Step: 1, Duration: 1e9},
+		// a profile written as a list of parts (once 3, const 4 rps 0.5 s, line 2→10 rps 1.5 s), and a list of one
+		{Kind: "list"}, {Kind: "list-of-one"},
 	}
 	t0 := time.Unix(1700000000, 0)
-	drain := func(s core.Schedule) string {
+	drain := func(s core.Schedule) (out string) {
 		var b strings.Builder
+		defer func() {
+			if r := recover(); r != nil {
+				out = b.String() + fmt.Sprintf(" PANIC: %v", r)
+			}
+		}()
 		fmt.Fprintf(&b, "left-before-start=%d;", s.Left())
 		s.Start(t0)
 		for i := 0; i < 200; i++ {
@@ -742,13 +749,27 @@ func concurrentFactory(res *vkit.Result, rounds int) {
 		return b.String()
 	}
 	for _, p := range profiles {
-		direct, err := build(p)
+		var direct core.Schedule
+		var err error
+		var conf any
+		switch p.Kind {
+		case "list":
+			direct = schedule.NewComposite(schedule.NewOnceConf(schedule.OnceConfig{Times: 3}),
+				schedule.NewConstConf(schedule.ConstConfig{Ops: 4, Duration: 500 * time.Millisecond}),
+				schedule.NewLineConf(schedule.LineConfig{From: 2, To: 10, Duration: 1500 * time.Millisecond}))
+			conf = []any{map[string]any{"type": "once", "times": 3}, map[string]any{"type": "const", "ops": 4, "duration": "500ms"},
+				map[string]any{"type": "line", "from": 2, "to": 10, "duration": "1.5s"}}
+		case "list-of-one":
+			direct = schedule.NewComposite(schedule.NewLineConf(schedule.LineConfig{From: 2, To: 10, Duration: 1500 * time.Millisecond}))
+			conf = []any{map[string]any{"type": "line", "from": 2, "to": 10, "duration": "1.5s"}}
+		default:
+			direct, err = build(p)
+		}
 		if err != nil {
 			res.Inconclusive(true, "cannot build %v: %v", p, err)
 			return
 		}
 		want := drain(direct)
-		var conf map[string]any
 		d := time.Duration(p.Duration).String()
 		switch p.Kind {
 		case "const":
